@@ -35,6 +35,7 @@ def expected (sp : Spec) (v : Val) : RVal :=
   | .int i => .int i
   | .str s => .str s
   | .fix k => .dec k sp.prec
+  | .nan => .nan
 
 /-- writer type letter, reader column type and kind of value belong together -/
 def kindOk (sp : Spec) (rty : RTy) (v : Val) : Prop :=
@@ -42,6 +43,7 @@ def kindOk (sp : Spec) (rty : RTy) (v : Val) : Prop :=
   | .d, .int, .int _ => True
   | .s, .str, .str _ => True
   | .f, .float, .fix _ => 1 ≤ sp.prec
+  | .f, .float, .nan => True
   | _, _, _ => False
 
 /-- the value fits its column; a string additionally has no white space at either end -/
@@ -187,6 +189,21 @@ theorem field_roundtrip (fmt : List Seg) (env : Env) (n : FName) (rty : RTy) (a 
     have hne : strip (renderField sp (.fix k)) ≠ [] := by
       intro h0; rw [h0] at hr; simp [parseDec, parseDecBody] at hr
     simp [hne, convert, hr, expected]
+  | nan =>
+    rw [hv] at hk hfit
+    cases hty : sp.ty <;> cases rty <;> simp only [hty] at hk
+    have hb : fieldBody sp .nan = ['n', 'a', 'n'] := by unfold fieldBody; rw [hty]
+    have hs : strip (renderField sp .nan) = ['n', 'a', 'n'] := by
+      rw [renderField_of_fits sp _ hfit.1, hb, strip_padded sp _ hf]
+      decide
+    rw [hs]
+    have hc : convert .float ['n', 'a', 'n'] = .ok .nan := by
+      have h1 : parseDec ['n', 'a', 'n'] = none := by decide
+      have h2 : isNanText ['n', 'a', 'n'] = true := by decide
+      simp [convert, h1, h2]
+    constructor
+    · simp [hc, expected]
+    · simp [hc, expected]
 
 /-- all columns of a record at once -/
 theorem fields_roundtrip (fmt : List Seg) (env : Env) (h : allTrunc fmt = true) (slices : List RSlice)
